@@ -105,8 +105,15 @@ def make_service():
         calls.append(("reject", msg.session_id))
         raise SV.MalformedMessageError("no")
 
+    class Throwaway:
+        # a handler that is a bound method of an object nobody else references (register_method(id, Obj().handle))
+        def handle(self, msg, addr):
+            return h_empty(msg, addr)
+
     s.register_method(M_BYTES, h_bytes)
-    s.register_method(M_EMPTY, h_empty)
+    s.register_method(M_EMPTY, Throwaway().handle)
+    import gc
+    gc.collect()
     s.register_method(M_NONE, h_none)
     s.register_method(M_REJECT, h_reject)
     return s, calls
